@@ -515,6 +515,17 @@ class Interp:
                 return IntV(None, sym=("packed", recv.src), src="packed(%s)" % recv.src)
             if isinstance(recv, (ListV, DataV)) and name in ("append", "extend", "update"):
                 return NoneV()
+            if isinstance(recv, FieldsV) and name == "sort":
+                from .rules.C15 import key_is_field_id
+                key = next((k.value for k in e.keywords if k.arg == "key"), None)
+                order = "other"
+                if key is not None:
+                    order = "sorted(field_id)" if key_is_field_id(key, self.eng, f) else "sorted(%s)" % norm(key, 30)
+                if any(k.arg == "reverse" for k in e.keywords):
+                    order += ",reverse"
+                recv.order = order
+                recv.src = "fields(%s)" % recv.struct_src
+                return NoneV()
             if isinstance(recv, Unknown) and recv.src == "ext:struct" and name in ("pack", "unpack"):
                 fmt = args[0].const if args and isinstance(args[0], StrV) else None
                 n = STRUCT_FMT.get(fmt) if fmt is not None else None
@@ -567,7 +578,7 @@ class Interp:
                     order = "other"
                     if key is not None:
                         from .rules.C15 import key_is_field_id
-                        order = "sorted(field_id)" if key_is_field_id(key) else "sorted(%s)" % norm(key, 30)
+                        order = "sorted(field_id)" if key_is_field_id(key, self.eng, f) else "sorted(%s)" % norm(key, 30)
                     if any(k.arg == "reverse" for k in e.keywords):
                         order += ",reverse"
                     return FieldsV(a.struct_src, order)
